@@ -613,11 +613,19 @@ func (a *act) discover(li *loopInfo, pre *State) *modset {
 	saveOuts := a.outs
 	a.outs = map[*ssa.BasicBlock]*blockOut{}
 	saveRet, saveDef := a.returns, a.defers
+	// the values computed for the body's SSA names belong to the scratch log: forget them afterwards (a stale
+	// reference of an Alloc inside the loop would otherwise be used by keepPrivate before the real pass re-executes
+	// the Alloc)
+	saveVals := make(map[ssa.Value]Val, len(a.vals))
+	for k, v := range a.vals {
+		saveVals[k] = v
+	}
 	defer func() {
 		c.discovery--
 		c.log = saveLog
 		a.outs = saveOuts
 		a.returns, a.defers = saveRet, saveDef
+		a.vals = saveVals
 	}()
 
 	head := &State{locals: map[any]Val{}, heap: map[string]Term{}, epoch: fmt.Sprintf("d%d.%d", c.discovery, li.head.Index)}
